@@ -3,6 +3,7 @@
 set -e
 cd "$(dirname "$0")"
 export CARGO_NET_OFFLINE=true
+export CARGO_TARGET_DIR="$(pwd)/harness/target"
 (cd harness && cargo build --release --offline)
 for f in spec/*/*.tla; do
   (cd "$(dirname "$f")" && tla-sany "$(basename "$f")" > /dev/null) || { echo "SANY failed on $f"; exit 1; }
